@@ -98,6 +98,9 @@ class Iface(object):
   def guard(self, what):
     pass
 
+  def place(self, label, zone):
+    pass
+
 
 def _mk(name, slots, spec):
   def __init__(self, *args, **kwargs):
@@ -144,6 +147,10 @@ guard_result = _mk('guard_result', ('e1', 'e2'), (
     (1, TType.STRUCT, 'e1', [E1, E1.thrift_spec], None,),
     (2, TType.STRUCT, 'e2', [E2, E2.thrift_spec], None,),
 ))
+# string place(2: string label, 1: string zone): the parameter ids are not in declaration order; the compiler emits the
+# thrift_spec by field id and the constructor / Iface signature in declaration order
+place_args = _mk('place_args', ('label', 'zone'), (None, (1, TType.STRING, 'zone', 'UTF8', None,), (2, TType.STRING, 'label', 'UTF8', None,),))
+place_result = _mk('place_result', ('success',), ((0, TType.STRING, 'success', 'UTF8', None,),))
 
 for _cls in (Item, E1, E2):
   _cls.thrift_spec = tuple(_cls.thrift_spec)
@@ -162,6 +169,7 @@ METHODS = {
     'scale': (('x',), (), False),
     'names': (('n',), (), False),
     'guard': (('what',), ('e1', 'e2'), True),
+    'place': (('label', 'zone'), (), False),
 }
 
 
